@@ -40,6 +40,36 @@ def ops : List Op := [
     pure (obj [("q", intsToJson r.q), ("bucket", listToJson ratToJson r.bucket),
       ("diag", listToJson ratToJson r.diag), ("deq", listToJson ratToJson r.deq),
       ("rq", intsToJson r.rq), ("rbucket", listToJson ratToJson r.rbucket)])),
+  -- the same in float32 arithmetic (`fl32` after every operation), for the four ways XLA-CPU may divide:
+  -- key "<rb><rr>", rb/rr = 1 when the bucket / the ratio is computed as a * fl(1/b)
+  ("quantize_fl32", fun j => do
+    let n ← getNat j "N"
+    let shape ← getNats j "shape"
+    let ed ← getBool j "ed"
+    let data ← asListOf asExact (← field j "data")
+    if shape = [] then throw "rank 0" else
+    if data.length ≠ rowsOf shape * colsOf shape then throw "data length does not match shape" else
+    let arr := data.toArray
+    let one := fun (rb rr : Bool) =>
+      let r := quantizeFlatFl (α := Rat) fl32 rb rr n shape ed arr
+      obj [("q", intsToJson r.q), ("bucket", listToJson ratToJson r.bucket),
+        ("deq", listToJson ratToJson r.deq),
+        ("overflow", Json.bool ((r.bucket ++ r.deq).any f32Overflows))]
+    pure (obj [("00", one false false), ("01", one false true), ("10", one true false), ("11", one true true)])),
+  -- dtype chosen by the call sites of distributed_shampoo / sm3
+  ("call_site_dtype", fun j => do
+    let site ← getStr j "site"
+    let name := fun (d : QDtype) => match d with
+      | .int8 => "int8" | .int16 => "int16" | .bfloat16 => "bfloat16" | .float32 => "float32"
+    match site with
+    | "ds_momentum" =>
+      pure (obj [("dtype", Json.str (name (dsMomentumDtype (← getBool j "best_effort") (← getNat j "rank"))))])
+    | "ds_second_moment" =>
+      pure (obj [("dtype", Json.str (name (dsSecondMomentDtype (← getBool j "best_effort") (← getBool j "low_rank")
+        (← getBool j "fd") (← getBool j "pmap_axis") (← getBool j "sharded"))))])
+    | "ds_diagonal_statistics" => pure (obj [("dtype", Json.str (name dsDiagonalStatisticsDtype))])
+    | "sm3_momentum" => pure (obj [("dtype", Json.str (name sm3MomentumDtype))])
+    | _ => throw "unknown site"),
   -- jnp.round on exact rationals
   ("round", fun j => do
     let data ← asListOf asExact (← field j "data")
